@@ -70,6 +70,11 @@ def configs(tier):
     # the calling process owns another, idle child while a walk worker fails (or is killed)
     cfgs.append(S.Walk(kind="filtered", depth=2, W=2, accepted=WALK3, fail_item=(1, 1, 1), fail_exc="runtime", foreign_child=True))
     cfgs.append(S.Walk(kind="filtered", depth=2, W=2, accepted=WALK3, fail_item=(1, 0, 0), fail_exc="kill", foreign_child=True))
+    # informational messages switched off for the process (as `toasty pipeline process-todos` leaves it)
+    cfgs.append(S.Walk(kind="filtered", depth=2, W=2, accepted=WALK3, fail_item=(1, 1, 1), fail_exc="valueerror", quiet_messages=True))
+    cfgs.append(S.VisitLeaves(kind="generic", depth=1, W=2, fail_item=(1, 0, 1), fail_exc="runtime", quiet_messages=True))
+    cfgs.append(S.Transform(depth=1, W=2, fail_item=(1, 1, 0), fail_exc="oserror", quiet_messages=True))
+    cfgs.append(S.MultiTan(nimg=2, W=2, fail_item=(1,), fail_exc="runtime", quiet_messages=True))
     # more images after the failing one than the bounded queue holds (2 x workers + 1): if the surviving
     # worker stopped early, the producer would block for ever
     cfgs.append(S.MultiTan(nimg=6, W=2, fail_item=(0,), fail_exc="valueerror"))
